@@ -60,6 +60,14 @@ func (n jnode) build() any {
 		return map[string]int{"a": 1, "c": 2}
 	case "float2":
 		return 2.75
+	case "anys": // a []any that is no envelope, and values of other slice types with the same length
+		return []any{nil}
+	case "strs1":
+		return []string{"p"}
+	case "ifaces": // a slice of a non-empty interface type (the package's own holder for mixed Stacks and Conditions)
+		return []stackage.Interface{stackage.And().Push("i")}
+	case "errs":
+		return []error{nil}
 	case "nil-bytes":
 		return []byte(nil)
 	case "tnil-pp": // typed nils more than one pointer level deep
@@ -115,7 +123,7 @@ func (o cmpCtxOp) String() string  { return string(o) }
 func (o cmpCtxOp) Context() string { return stackage.Eq.Context() }
 
 func siblingValues(n jnode) (jnode, bool) {
-	if to, ok := map[string]string{"bytes": "bytes2", "map": "map2", "float": "float2"}[n.T]; ok {
+	if to, ok := map[string]string{"bytes": "bytes2", "map": "map2", "float": "float2", "anys": "strs1", "ifaces": "errs"}[n.T]; ok {
 		return jnode{T: to}, true
 	}
 	changed := false
@@ -521,7 +529,7 @@ func c16Inputs(c *Ctx) []jnode {
 	s := func(x string) jnode { return jnode{T: "str", S: x} }
 	l := func(k ...jnode) jnode { return jnode{T: "list", Kids: k} }
 	labels := []jnode{s("AND"), s("or"), s("Not"), s("LIST"), s("basic"), s("CONDITION"), s("condition")}
-	atoms := []jnode{s("junk"), s("<invalid_stack>"), s(""), {T: "int"}, {T: "nil"}, {T: "tnil-stack"}, {T: "tnil-cond"}, {T: "tnil-int"}, {T: "tnil-pp"}, {T: "tnil-ppp"}, {T: "bytes"}, {T: "nil-bytes"}, {T: "map"}, {T: "op"}, {T: "op0"}, {T: "uop"}, {T: "uop-empty"},
+	atoms := []jnode{s("junk"), s("<invalid_stack>"), s(""), {T: "int"}, {T: "nil"}, {T: "tnil-stack"}, {T: "tnil-cond"}, {T: "tnil-int"}, {T: "tnil-pp"}, {T: "tnil-ppp"}, {T: "bytes"}, {T: "nil-bytes"}, {T: "map"}, {T: "anys"}, {T: "ifaces"}, {T: "op"}, {T: "op0"}, {T: "uop"}, {T: "uop-empty"},
 		{T: "stack"}, {T: "stack0"}, {T: "cond"}, {T: "cond0"}, {T: "float"}, {T: "bool"}}
 	// depth-1 nested lists: every label followed by 0..2 atoms, condition rows of length 1..6, and junk lists
 	var nested []jnode
